@@ -404,8 +404,11 @@ where
     <T as PurlShape>::Error: ErrName + From<purl::ParseError>,
 {
     let parts = &case["parts"];
+    // two ways into the same builder state: the public setters, or (for the Cow::Owned and Purl runs) direct
+    // writes to the public fields, so that values the setters would normalise (empty qualifier values) reach build()
+    let direct = inst == "CowOwned" || inst == "Purl";
     let r = catch_unwind(AssertUnwindSafe(|| -> Result<GenericPurl<T>, <T as PurlShape>::Error> {
-        let b = make_builder(t, parts)?;
+        let b = if direct { builder_in_state(t, parts) } else { make_builder(t, parts)? };
         b.build()
     }));
     let (obs, p) = match r {
